@@ -14,6 +14,7 @@ import (
 	"context"
 	"encoding/json"
 	"fmt"
+	"runtime"
 	"sort"
 	"strings"
 	"testing/synctest"
@@ -38,17 +39,19 @@ type vfEvtHandler struct {
 }
 
 type vfC18Inst struct {
-	x        *vfExec
-	w        *vfWorld
-	n        *vfNode
-	topic    *Topic
-	fakes    map[string]*vfFake
-	conn     map[string]bool
-	handlers []*vfEvtHandler
-	router   string
-	variant  string
-	lastEv   string
-	lastPts  []vfChoicePoint
+	x          *vfExec
+	w          *vfWorld
+	n          *vfNode
+	topic      *Topic
+	fakes      map[string]*vfFake
+	conn       map[string]bool
+	handlers   []*vfEvtHandler
+	router     string
+	variant    string
+	closeRaced bool
+	topicGone  bool
+	lastEv     string
+	lastPts    []vfChoicePoint
 }
 
 // LastDeviations: which of several pending events NextPeerEvent hands out is map iteration order in the
@@ -112,7 +115,10 @@ func (in *vfC18Inst) Enabled() []string {
 			evs = append(evs, "conn:"+name)
 		}
 	}
-	if len(in.handlers) < 2 {
+	if len(in.handlers) == 0 && !in.closeRaced && in.variant == "" && in.router == "flood" {
+		evs = append(evs, "hclose")
+	}
+	if len(in.handlers) < 2 && !in.topicGone {
 		evs = append(evs, "handler")
 		// handler creation with a remote (un)subscription processed by the event loop right behind it
 		for _, name := range []string{"a", "b"} {
@@ -277,6 +283,30 @@ func (in *vfC18Inst) Apply(evFull string, judge bool) string {
 		eh := &vfEvtHandler{h: h, name: fmt.Sprintf("h%d", len(in.handlers)+1), fold: map[string]bool{}, last: map[string]string{}}
 		in.n.label(unsafe.Pointer(h), eh.name)
 		in.handlers = append(in.handlers, eh)
+	case "hclose":
+		// Topic.Close racing the creation of the topic's first handler: Close is started from inside EventHandler (an
+		// option runs after EventHandler has checked that the topic is open and before the handler is registered) and
+		// gets every chance to run. Either Close waits and is then refused because of the handler, or the handler is
+		// refused because the topic is closed -- a handler that was handed out has to follow the topic's peer set.
+		closeDone := make(chan error, 1)
+		opt := func(*TopicEventHandler) error {
+			go func() { closeDone <- in.topic.Close() }()
+			for i := 0; i < 200; i++ {
+				runtime.Gosched() // (no synctest.Wait here: a Close that waits does so on a mutex)
+			}
+			return nil
+		}
+		h, err := in.topic.EventHandler(opt)
+		synctest.Wait()
+		if cerr := <-closeDone; cerr == nil {
+			in.topicGone = true // (no further handlers can be asked for; the one handed out is still judged)
+		}
+		in.closeRaced = true
+		if err == nil {
+			eh := &vfEvtHandler{h: h, name: fmt.Sprintf("h%d", len(in.handlers)+1), fold: map[string]bool{}, last: map[string]string{}}
+			in.n.label(unsafe.Pointer(h), eh.name)
+			in.handlers = append(in.handlers, eh)
+		}
 	case "next":
 		in.startNext(in.handler(arg))
 	case "nextdead":
